@@ -80,6 +80,8 @@ func (it *intent) value(verb, frag string) (string, bool) {
 func (it *intent) parts(ps []gen.Part, escape bool) bool {
 	for _, p := range ps {
 		switch {
+		case p.EscBackslash:
+			it.w(`\`)
 		case p.EscHash:
 			it.w("#{" + p.Static + "}")
 		case p.Expr != "":
